@@ -14,11 +14,21 @@ PID = "C05"
 SYM_CFGS = [("sse2", 4), ("sse2", 8), ("avx2", 4), ("avx2", 8), ("avx512", 4), ("avx512", 8), ("scalar", 4)]
 ALL_CFGS = [(i, s) for i in core.ALL_ISAS for s in (4, 8)]
 
+def only_filter(groups):
+    """development aid: VERIF_ONLY=sub1,sub2 keeps the groups whose key contains one of the substrings"""
+    import os
+    only = os.environ.get("VERIF_ONLY")
+    if not only:
+        return groups
+    subs = [x for x in only.split(",") if x]
+    return [g for g in groups if any(x in g["key"] for x in subs)]
+
 def tup(t):
     return "(" + ",".join(str(x) for x in t) + ")"
 
-def dyn_scripts(dims, rd, V, rng, n_single, n_rd, n_seq, exhaustive1d):
+def dyn_scripts(dims, rd, V, rng, n_single, n_rd, n_seq, exhaustive1d, ops=None):
     rks = "svetxfm"
+    OPSL = ops or G.OPS
     out = []
     if len(dims) == 1 and exhaustive1d:
         n = dims[0]
@@ -27,16 +37,16 @@ def dyn_scripts(dims, rd, V, rng, n_single, n_rd, n_seq, exhaustive1d):
             tri = rng.sample(tri, n_single)
         for (f, l, s) in tri:
             dst = [G.encode(f, l, s, n, rng, True)]
-            out.append(G.rand_write(dims, rd, V, rng, rks, dst=dst))
+            out.append(G.rand_write(dims, rd, V, rng, rks, dst=dst, ops=ops))
     else:
         for _ in range(n_single):
-            out.append(G.rand_write(dims, rd, V, rng, rks))
+            out.append(G.rand_write(dims, rd, V, rng, rks, ops=ops))
     for k in range(n_rd):
         avail = "txfm" if len(dims) == 2 else ("txm" if len(dims) == 1 else "txf")
-        out.append(G.rand_write(dims, rd, V, rng, avail[k % len(avail)] , op=G.OPS[(k // len(avail)) % 4], force_rd=True))
+        out.append(G.rand_write(dims, rd, V, rng, avail[k % len(avail)] , op=OPSL[(k // len(avail)) % len(OPSL)], force_rd=True))
     for _ in range(n_seq):
         k = rng.randint(2, 4)
-        out.append("/".join(G.rand_write(dims, rd, V, rng, rks, force_rd=(rng.random() < 0.3)) for _ in range(k)))
+        out.append("/".join(G.rand_write(dims, rd, V, rng, rks, force_rd=(rng.random() < 0.3), ops=ops) for _ in range(k)))
     return out
 
 def dyn_shapes(V, seed, which):
@@ -44,7 +54,8 @@ def dyn_shapes(V, seed, which):
     if which == "d1":
         return (2 * V + 3,), ([V + 1, V, 2 * V + 1][seed % 3],)
     if which == "d2":
-        return (4, V + 3), (2, [V, V + 1, V + 2][seed % 3])
+        # 2V+1 columns: a strided (step 2) row can still hold V+1 elements, so the data_setter route is reachable for every V
+        return (4, 2 * V + 1), (2, [V, V + 1, V + 2][seed % 3])
     if which == "d3":
         return (2, 3, 2 * V), (2, 2, V)
     return (2, 2, 2, V + 1), (1, 2, 2, V)
@@ -64,7 +75,7 @@ def fixed_family(V):
         ("f3c", (2, 2, 2 * V + 1), [(0, 1, 1), (0, -1, 1), (1, -1, 2)], 0),
     ]
 
-def fixed_scripts(dims, fseqs, V, rng, count):
+def fixed_scripts(dims, fseqs, V, rng, count, ops=None):
     rd = [G.ext_of(t, n) for t, n in zip(fseqs, dims)]
     rks = "svetxfm"
     out = []
@@ -72,10 +83,10 @@ def fixed_scripts(dims, fseqs, V, rng, count):
         n = 1 if k < count * 2 // 3 else rng.randint(2, 4)
         ws = []
         for _ in range(n):
-            ws.append(G.rand_write(dims, rd, V, rng, rks, dst=list(fseqs)))
+            ws.append(G.rand_write(dims, rd, V, rng, rks, dst=list(fseqs), ops=ops))
         out.append("/".join(ws))
     # every operator x every rhs kind at least once
-    for op in G.OPS:
+    for op in (ops or G.OPS):
         for rk in rks:
             if (rk == "m" and len(dims) > 2) or (rk == "f" and len(dims) < 2):
                 continue
@@ -105,7 +116,7 @@ def sym_groups(tier, seed):
                                "defs": ["-DFASTOR_USE_VECTORISED_EXPR_ASSIGN"] if vea else [], "calls": calls})
         # fixed views: quick = two members of the family per configuration, rotating with the seed
         fam = fixed_family(V)
-        pick = [fam[(2 * ci + seed + k) % 6] for k in range(1)] if quick else fam
+        pick = [fam[(2 * ci + seed + k) % 6] for k in range(1)] if quick else [fam[(ci + k) % len(fam)] for k in range(0, 10, 2)]
         if quick and ci < 3:
             pick.append(fam[(2 * ci + seed + 3) % 6])
         for (name, dims, fseqs, vea) in pick:
@@ -115,10 +126,81 @@ def sym_groups(tier, seed):
             calls = ['VWF(Sym%d, %s, %s, %s, "%s");' % (sz, tup(rd), tup(dims), fs, s) for s in sc]
             groups.append({"key": "%s/sz%d/vea%d/%s" % (isa, sz, vea, name), "header": "view_write_sym.h", "isa": isa, "opt": "-O0",
                            "defs": ["-DFASTOR_USE_VECTORISED_EXPR_ASSIGN"] if vea else [], "calls": calls})
-    return groups
+        # the writable diagonal view diag(A): quick = two configurations
+        if not quick or ci in (seed % 7, (seed + 3) % 7):
+            M = V + 1
+            r2 = random.Random(rng.random())
+            sc = diag_scripts(M, r2, 16 if quick else 80, G.OPS)
+            calls = ['VWD(Sym%d, (%d), (%d,%d), "%s");' % (sz, M, M, M, s) for s in sc]
+            groups.append({"key": "%s/sz%d/vea0/diag" % (isa, sz), "header": "view_write_sym.h", "isa": isa, "opt": "-O0", "defs": [], "calls": calls})
+    return only_filter(groups)
+
+def diag_scripts(M, rng, count, ops):
+    dst = "0_%d_1,0_%d_1" % (M, M)          # ignored by the diagonal view; kept for the line format
+    out = []
+    for k in range(count):
+        ws = []
+        for _ in range(1 if k < count // 2 else rng.randint(2, 4)):
+            op = rng.choice(ops); rk = rng.choice("sstxm")
+            c = rng.choice([2, 4, -2]) if op == "div" else rng.choice([2, 3, 5, -1, -4, 7])
+            ws.append("%s.%s.%d.%s" % (op, rk, c, dst))
+        out.append("/".join(ws))
+    return out
+
+REAL_TYPES = [("float", 4), ("double", 8), ("int32_t", 4), ("int64_t", 8)]
 
 def real_groups(tier, seed):
-    return []
+    """real element types between sentinel margins, all FIVE operators, reversed ranges included, -O2"""
+    rng = random.Random(seed * 3571 + 9)
+    quick = tier == "quick"
+    isas = core.QUICK_ISAS if quick else core.ALL_ISAS
+    groups = []
+    ci = 0
+    G.REVERSED_P[0] = 0.15
+    try:
+        for isa in isas:
+            for (t, sz) in REAL_TYPES:
+                ci += 1
+                V = G.vwidth(isa, sz)
+                whichs = [("d1", "d2", "d3")[(ci + seed) % 3]] if quick else ["d1", "d2", "d3"]
+                for wi, which in enumerate(whichs):
+                    for vea in ([(ci + seed) % 2] if quick else [(ci + wi) % 2]):
+                        dims, rd = dyn_shapes(V, seed + ci, which)
+                        r2 = random.Random(rng.random())
+                        sc = dyn_scripts(dims, rd, V, r2, 60 if quick else 600, 30 if quick else 120, 30 if quick else 200, False, ops=G.OPS5)
+                        calls = ['VWR(%s, %s, %s, %du, "%s");' % (t, tup(rd), tup(dims), seed * 1000 + k, s) for k, s in enumerate(sc)]
+                        groups.append({"key": "real/%s/%s/vea%d/%s" % (isa, t, vea, which), "header": "view_write_real.h", "isa": isa, "opt": "-O2",
+                                       "defs": ["-ffp-contract=off"] + (["-DFASTOR_USE_VECTORISED_EXPR_ASSIGN"] if vea else []),
+                                       "pre": "", "calls": calls})
+                fam = fixed_family(V)
+                pick = ([fam[(ci + seed) % len(fam)]] if (ci + seed) % 2 == 0 else []) if quick else [fam[(ci + k) % len(fam)] for k in (0, 3, 6)]
+                for (name, dims, fseqs, vea) in pick:
+                    r2 = random.Random(rng.random())
+                    G.REVERSED_P[0] = 0.0
+                    rd0 = [G.ext_of(x, n) for x, n in zip(fseqs, dims)]
+                    G.REVERSED_P[0] = 0.15
+                    rd, sc = fixed_scripts(dims, fseqs, V, r2, 20 if quick else 120, ops=G.OPS5)
+                    fs = "(" + ", ".join("fseq<%d,%d,%d>" % x for x in fseqs) + ")"
+                    calls = ['VWRF(%s, %s, %s, %s, %du, "%s");' % (t, tup(rd), tup(dims), fs, seed * 1000 + k, s) for k, s in enumerate(sc)]
+                    groups.append({"key": "real/%s/%s/vea%d/%s" % (isa, t, vea, name), "header": "view_write_real.h", "isa": isa, "opt": "-O2",
+                                   "defs": ["-ffp-contract=off"] + (["-DFASTOR_USE_VECTORISED_EXPR_ASSIGN"] if vea else []),
+                                   "pre": "", "calls": calls})
+        # diag(A) on the real types: one cell per ISA (quick), all (thorough)
+        ci = 0
+        for isa in isas:
+            for (t, sz) in REAL_TYPES:
+                ci += 1
+                if quick and (ci + seed + (ci - 1) // 4) % 4:
+                    continue
+                M = G.vwidth(isa, sz) + 1
+                r2 = random.Random(rng.random())
+                sc = diag_scripts(M, r2, 20 if quick else 100, G.OPS5)
+                calls = ['VWRD(%s, (%d), (%d,%d), %du, "%s");' % (t, M, M, M, seed * 1000 + k, s) for k, s in enumerate(sc)]
+                groups.append({"key": "real/%s/%s/vea0/diag" % (isa, t), "header": "view_write_real.h", "isa": isa, "opt": "-O2",
+                               "defs": ["-ffp-contract=off"], "pre": "", "calls": calls})
+    finally:
+        G.REVERSED_P[0] = 0.0
+    return only_filter(groups)
 
 def run(tier, seed):
     return flow.standard_run(
@@ -136,8 +218,10 @@ def sym_call_of(inp):
     d = symrun.kv(inp)
     dims = tuple(int(x) for x in d["dims"].split("x")); rd = tuple(int(x) for x in d["rd"].split("x"))
     g = {"key": "replay", "header": "view_write_sym.h", "isa": d["cfg"], "opt": "-O0",
-         "defs": ["-DFASTOR_USE_VECTORISED_EXPR_ASSIGN"] if d.get("vea") == "1" else []}
-    if d["cls"] == "fix":
+         "defs": (["-DFASTOR_USE_VECTORISED_EXPR_ASSIGN"] if d.get("vea") == "1" else []) + (["-DFASTOR_NO_ALIAS=1"] if d.get("nal") == "1" else [])}
+    if d["cls"] == "diag":
+        g["calls"] = ['VWD(Sym%s, %s, %s, "%s");' % (d["sz"], tup(rd), tup(dims), d["W"])]
+    elif d["cls"] == "fix":
         dst = d["W"].split("/")[0].split(".")[3]
         fs = "(" + ", ".join("fseq<%s>" % ax.replace("_", ",") for ax in dst.split(",")) + ")"
         g["calls"] = ['VWF(Sym%s, %s, %s, %s, "%s");' % (d["sz"], tup(rd), tup(dims), fs, d["W"])]
